@@ -5,17 +5,25 @@
 //   DEADLOCK why=<..> STATE jobs=<n> busy=<n> idle=<n> done=<n> term=<0|1> THREADS <id>:<finished>:<kind>:<notified>,... CHOICES <c,c,..> TRACE <event trace>
 //   CRASH status=<n> <tail of the child's output>
 // Scenario line:  W=<workers> J=<id>:<jop>.<jop>;<id>:... C=<cop>.<cop>;<cop>... M=<cop>.<cop> sp=<0|1> st=<0|1> seed=<n> [ch=<c,c,...>]
-//   jop: e<j> enqueue job j | t terminate();  cop: e<j> | L loop_until_empty | T loop_until_terminate | X terminate() | D done()
+//   jop: e<j> enqueue job j | t terminate() | x throw std::runtime_error at the end of the body (after the effect) |
+//        c<j> the closure's captured RAII token enqueues job j from its destructor | F / B (first op) the job is enqueued as a
+//        plain function pointer / a bound member function instead of a capturing lambda (then there is no closure token);
+//   cop: e<j> | L loop_until_empty | T loop_until_terminate | X terminate() | D done() | S size() | I idle() | H has_idle() | R thread(i) audit
+//   optional: init=<n> pool constructed with an InitThread hook (user event IT p, then n yields); dflt=1 default-size constructor
 //   "-" = empty list.  Thread ids: 0 main, 1..W workers, W+1.. clients (in the order of C).
 // Program of the main thread: construct pool(W); spawn the clients; run M; join the clients; destroy the pool.
 // User events: JS/JE job body start/end (scheduling points), ENQ/LE/LT/TERM call markers and LER (return of
-// loop_until_empty; argument = number of job bodies whose effect is visible to the caller) as notes.
+// loop_until_empty; argument = number of job bodies whose effect is visible to the caller) as notes; CD j = the closure of
+// job j (its captured token) was destroyed; IT p = InitThread hook of worker p; SZ/IDLE/HAS/THR = observed size()/idle()/
+// has_idle()/thread(i) results.  The pool's "EXCEPTION: ..." line on std::cerr is discarded.
 #include <cstdio>
 #include <cstdlib>
 #include <cstring>
 #include <fstream>
 #include <iostream>
+#include <memory>
 #include <new>
+#include <stdexcept>
 #include <sstream>
 #include <string>
 #include <vector>
@@ -44,6 +52,7 @@ struct Op { char k; int j; };
 struct Scenario {
     int W = 1; std::vector<std::vector<Op>> jobs; std::vector<std::vector<Op>> clients; std::vector<Op> mainops;
     int sp = 0, st = 0; unsigned long long seed = 1; std::vector<int> choices; bool has_choices = false;
+    int init = -1; int dflt = 0;
 };
 
 static std::vector<std::string> split(const std::string& s, char c) {
@@ -69,6 +78,8 @@ static bool parse(const std::string& line, Scenario& sc) {
         else if (k == "sp") sc.sp = atoi(v.c_str());
         else if (k == "st") sc.st = atoi(v.c_str());
         else if (k == "seed") sc.seed = strtoull(v.c_str(), nullptr, 10);
+        else if (k == "init") sc.init = atoi(v.c_str());
+        else if (k == "dflt") sc.dflt = atoi(v.c_str());
         else if (k == "ch") { sc.has_choices = true; for (auto& c : split(v, ',')) if (!c.empty()) sc.choices.push_back(atoi(c.c_str())); }
         else return false;
     }
@@ -78,25 +89,56 @@ static bool parse(const std::string& line, Scenario& sc) {
 // ---- the run (inside the child) ---------------------------------------------------------------------------
 alignas(tlx::ThreadPool) static unsigned char pool_buf[sizeof(tlx::ThreadPool)];
 static tlx::ThreadPool* g_pool = nullptr;
+static bool g_pool_alive = false;   // false while ~ThreadPool runs: a closure destroyed with the queue must not enqueue into it
 static Scenario* g_sc = nullptr;
 static int g_ran[4096];        // plain (non-atomic) memory written by the job bodies: the "effects" of the jobs
 static int g_started[4096];
 
 static void run_job(int j);
+static void do_enqueue(int j);
+static char job_kind(int j) {   // 'L' capturing lambda (default), 'F' function pointer, 'B' bound member
+    if (j >= 0 && static_cast<size_t>(j) < g_sc->jobs.size() && !g_sc->jobs[static_cast<size_t>(j)].empty()) {
+        char k = g_sc->jobs[static_cast<size_t>(j)][0].k; if (k == 'F' || k == 'B') return k;
+    }
+    return 'L';
+}
+// RAII token captured by every lambda job: its destructor runs when the job's closure is destroyed
+struct Token {
+    int j; explicit Token(int jj) : j(jj) {}
+    Token(const Token&) = delete; Token& operator=(const Token&) = delete;
+    ~Token() {
+        verif::Sched& s = verif::Sched::get();
+        if (!s.active()) return;
+        s.note("CD", j);
+        if (g_pool_alive && static_cast<size_t>(j) < g_sc->jobs.size())
+            for (const Op& o : g_sc->jobs[static_cast<size_t>(j)]) if (o.k == 'c') do_enqueue(o.j);   // continuation from the destructor
+    }
+};
+template <int J> static void fp_job() { run_job(J); }
+typedef void (*FP)();
+static FP fp_table[8] = { fp_job<0>, fp_job<1>, fp_job<2>, fp_job<3>, fp_job<4>, fp_job<5>, fp_job<6>, fp_job<7> };
+struct Bound { int j; void run() { run_job(j); } };
+static Bound bound_objs[4096];
 static void do_enqueue(int j) {
     verif::Sched::get().note("ENQ", j);
-    g_pool->enqueue([j]() { run_job(j); });
+    char k = job_kind(j);
+    if (k == 'F' && j >= 0 && j < 8) g_pool->enqueue(tlx::ThreadPool::Job(fp_table[j]));
+    else if (k == 'B') { bound_objs[j & 4095].j = j; g_pool->enqueue(tlx::ThreadPool::Job::make<Bound, &Bound::run>(&bound_objs[j & 4095])); }
+    else { auto tok = std::make_shared<Token>(j); g_pool->enqueue([tok]() { run_job(tok->j); }); }
 }
 static void do_terminate() { verif::Sched::get().note("TERM"); g_pool->terminate(); }
 static void run_job(int j) {
     verif::Sched& s = verif::Sched::get();
     s.user("JS", j); g_started[j & 4095]++;
+    bool thr = false;
     if (static_cast<size_t>(j) < g_sc->jobs.size())
         for (const Op& o : g_sc->jobs[static_cast<size_t>(j)]) {
             if (o.k == 'e') do_enqueue(o.j);
             else if (o.k == 't') do_terminate();
+            else if (o.k == 'x') thr = true;
         }
     s.user("JE", j); g_ran[j & 4095]++;   // the effect becomes visible atomically with the JE event
+    if (thr) throw std::runtime_error("job " + std::to_string(j));   // the pool catches std::exception and goes on
 }
 static void run_cops(const std::vector<Op>& ops) {
     verif::Sched& s = verif::Sched::get();
@@ -110,6 +152,12 @@ static void run_cops(const std::vector<Op>& ops) {
         case 'T': s.note("LT"); g_pool->loop_until_terminate(); break;
         case 'X': do_terminate(); break;
         case 'D': { size_t d = g_pool->done(); (void)d; break; }
+        case 'S': s.note("SZ", static_cast<long long>(g_pool->size())); break;
+        case 'I': { size_t v = g_pool->idle(); s.note("IDLE", static_cast<long long>(v)); break; }
+        case 'H': { bool b = g_pool->has_idle(); s.note("HAS", b ? 1 : 0); break; }
+        case 'R': { bool ok = true;
+            for (size_t i = 0; i < g_pool->size(); ++i) { auto& t = g_pool->thread(i); ok = ok && t.joinable() && t.get_id() == static_cast<int>(i) + 1; }
+            s.note("THR", ok ? 1 : 0); break; }
         default: break;
         }
     }
@@ -133,13 +181,23 @@ static int child_main(Scenario& sc) {
                raw<size_t>(&(P->*steal(TBusy()))), raw<size_t>(&(P->*steal(TIdle()))), raw<size_t>(&(P->*steal(TDone()))),
                raw<bool>(&(P->*steal(TTerm()))));
     };
-    g_pool = new (pool_buf) tlx::ThreadPool(static_cast<size_t>(sc.W));
+    static std::ostringstream cerr_sink; cerr_sink.str(""); std::cerr.rdbuf(cerr_sink.rdbuf());   // "EXCEPTION: ..." of the pool
+    if (sc.init >= 0) {
+        int n = sc.init;
+        g_pool = new (pool_buf) tlx::ThreadPool(static_cast<size_t>(sc.W), [n](size_t p) {
+            verif::Sched::get().user("IT", static_cast<long long>(p));
+            for (int i = 0; i < n; ++i) verif::this_thread::yield();
+        });
+    } else if (sc.dflt) g_pool = new (pool_buf) tlx::ThreadPool();          // hardware_concurrency() through the shim = W
+    else g_pool = new (pool_buf) tlx::ThreadPool(static_cast<size_t>(sc.W));
+    g_pool_alive = true;
     {
         std::vector<verif::thread> cl;
         for (size_t c = 0; c < sc.clients.size(); ++c) cl.emplace_back([&sc, c]() { run_cops(sc.clients[c]); });
         run_cops(sc.mainops);
         for (auto& t : cl) t.join();
     }
+    g_pool_alive = false;
     g_pool->~ThreadPool();
     std::string trace = s.end();
     printf("OK %s\n", trace.c_str());
@@ -197,7 +255,7 @@ int main(int argc, char** argv) {
         if (pid == 0) {
             close(fd[0]); dup2(fd[1], 1); dup2(fd[1], 2); close(fd[1]);
             for (size_t k = next; k < lines.size(); ++k) {
-                fputs(MARK.c_str(), stdout);
+                fputs(MARK.c_str(), stdout); fflush(stdout);
                 Scenario sc;
                 if (!parse(lines[k], sc)) { printf("BADCASE\n"); fflush(stdout); _exit(4); }
                 memset(g_ran, 0, sizeof(g_ran)); memset(g_started, 0, sizeof(g_started));
